@@ -225,11 +225,17 @@ def run_case(spec, j):
               dict(det, ops=ops[-6:]))
 
   length = spec['length']
-  plan = ['fit'] + [None] * (length - 1)
+  # every history contains a direct transition between the two datasets of
+  # equal dimensionality (a stale cache keyed on shapes survives only there)
+  # and one to the dataset of another dimensionality
+  plan = [('fit', 0), None, ('fit', 2), None, ('fit', 1)] + \
+      [None] * max(0, length - 5)
   for step in range(length):
     fitted = cur is not None
-    if plan[step] == 'fit' or not fitted:
+    forced = None
+    if isinstance(plan[step], tuple) or not fitted:
       op = 'fit'
+      forced = plan[step][1] if isinstance(plan[step], tuple) else 0
     else:
       choices = ['fit', 'fit', 'transform', 'pair_distance', 'get_metric',
                  'get_M', 'set_params', 'clone', 'pickle', 'repeat-fit']
@@ -243,7 +249,8 @@ def run_case(spec, j):
     try:
       with Quiet():
         if op in ('fit', 'repeat-fit'):
-          i = cur if op == 'repeat-fit' else int(rng.randint(3))
+          i = cur if op == 'repeat-fit' else (
+              forced if forced is not None else int(rng.randint(3)))
           est.set_params(**fits[i]['params'])
           ok_over = {k: v for k, v in overrides.items()
                      if k in est.get_params(deep=False)}
